@@ -21,7 +21,10 @@
      What this says about the real float64 code: IF binary64 arithmetic satisfies the standard model with
      `u = 2⁻⁵³` on the values that occur (true in the absence of overflow, underflow and NaN — all three are
      OUTSIDE the model; for 0/1 streams every intermediate lies in `[0, 2]` so overflow cannot occur, and an
-     underflowing `(x − mean)/n` would need `n > 2¹⁰⁰⁰`), THEN the theorems apply verbatim with `α := Float`.
+     underflowing `(x − mean)/n` would need `n > 2¹⁰⁰⁰`), THEN the error ANALYSIS carries over.  It cannot be carried
+     over INSIDE Lean: `StdModel` states its clauses for ALL values (`∀ x y`, `∀ n`), and any carrier satisfying them is
+     infinite, unbounded and never underflows (review T3 proved this), so no finite-precision format - binary64
+     included - is an instance; the side conditions above are not part of the structure.
      What it does not say: nothing is proved about Lean's `Float` itself (opaque to the kernel), nothing on
      near-ties (margins below the bound) — there the verdict of the float code may legitimately differ from
      the ℝ-model; the harness's near-tie exclusion at relative margin `1e-9` is the empirical counterpart of
